@@ -420,6 +420,18 @@ func (rc *rctx) cond(c *call) string {
 	return x + " > '2025-01-01'"
 }
 
+// ord renders the call as an ORDER BY term. A constant term would not
+// influence the result, so a time value is compared with the row's ts column:
+// the order of the rows then depends on the clock unless the call was replaced.
+func (rc *rctx) ord(c *call) string {
+	if c.Dead || !isTimeFn(c.Fn) {
+		x, _ := rc.out(c)
+		return x
+	}
+	x, _ := rc.callText(c)
+	return "ts < " + x
+}
+
 // intx renders an integer expression that is always 0.
 func (rc *rctx) intx(c *call) string {
 	x, _ := rc.callText(c)
@@ -631,7 +643,7 @@ func featApplies(f *featDef, sp *spec) bool {
 
 // positions available per kind
 var kindPos = map[string][]string{
-	"select":        {"item", "item", "item", "scalar", "cte", "fromsub", "casecond", "where", "where", "insub", "exists", "inlist", "having", "joinon", "orderby", "limit", "compound"},
+	"select":        {"item", "item", "item", "scalar", "cte", "fromsub", "casecond", "where", "where", "insub", "exists", "inlist", "having", "joinon", "orderby", "orderby", "winorder", "limit", "compound"},
 	"insert":        {"value", "value", "value", "returning", "scalar"},
 	"insert-select": {"item", "item", "where", "cte", "scalar", "insub", "returning"},
 	"upsert":        {"value", "value", "upset", "upset", "upwhere", "returning"},
@@ -646,6 +658,8 @@ func posRole(pos string) string {
 		return "cond"
 	case "limit", "inlist":
 		return "int"
+	case "orderby", "winorder":
+		return "ord"
 	}
 	return "out"
 }
@@ -938,6 +952,10 @@ func (rc *rctx) selectStmt(out *rendered) string {
 	ei, em := rc.featItems(true)
 	items = append(items, ei...)
 	modes = append(modes, em...)
+	for _, c := range rc.callsAt("winorder") {
+		items = append(items, "row_number() OVER (ORDER BY "+rc.ord(c)+", t.id DESC)")
+		modes = append(modes, mExact)
+	}
 	for _, c := range rc.callsAt("item") {
 		x, m := rc.out(c)
 		items = append(items, x)
@@ -1056,7 +1074,7 @@ func (rc *rctx) selectStmt(out *rendered) string {
 	var terms []string
 	if !compound {
 		for _, c := range ob {
-			x, _ := rc.out(c)
+			x := rc.ord(c)
 			terms = append(terms, x)
 			if !c.Dead && (c.Fn == "random" || c.Fn == "randomblob") {
 				unorderedRandom = true
@@ -1458,6 +1476,9 @@ func genCall(r *rand.Rand, kind string) call {
 	}
 	c.Pos = pick(r, kindPos[kind])
 	role := posRole(c.Pos)
+	if role == "ord" && !isTimeFn(c.Fn) {
+		role = "out"
+	}
 	if r.IntN(4) == 0 {
 		c.Case = 1 + r.IntN(2)
 	}
@@ -1615,7 +1636,7 @@ func normalize(sp *spec) {
 			}
 			for i := range sp.Calls {
 				switch sp.Calls[i].Pos {
-				case "having", "joinon", "orderby":
+				case "having", "joinon", "orderby", "winorder":
 					sp.Calls[i].Pos = "item"
 					sp.Calls[i].Wrap = ""
 				}
@@ -1627,6 +1648,19 @@ func normalize(sp *spec) {
 				grp = true
 			}
 		}
+		for i := range sp.Calls {
+			c := &sp.Calls[i]
+			if c.Pos != "winorder" {
+				continue
+			}
+			// a window needs ungrouped rows; a random window order is the
+			// documented exclusion and is exercised at the plain ORDER BY
+			if grp || sp.has("star") || sp.has("distinct") {
+				c.Pos = "orderby"
+			} else if !isTimeFn(c.Fn) {
+				c.Pos = "orderby"
+			}
+		}
 		if grp {
 			for _, t := range []string{"item-window", "item-window-part", "item-filter", "star", "left-join", "join-using"} {
 				drop(t)
@@ -1634,7 +1668,7 @@ func normalize(sp *spec) {
 		}
 		if sp.has("distinct") {
 			for i := range sp.Calls {
-				if sp.Calls[i].Pos == "orderby" {
+				if sp.Calls[i].Pos == "orderby" || sp.Calls[i].Pos == "winorder" {
 					sp.Calls[i].Pos = "item"
 					sp.Calls[i].Wrap = ""
 				}
@@ -1681,6 +1715,13 @@ func normalize(sp *spec) {
 	for i := range sp.Calls {
 		c := &sp.Calls[i]
 		role := posRole(c.Pos)
+		if role == "ord" {
+			if isTimeFn(c.Fn) {
+				c.Wrap = "" // rendered as: ts < call
+			} else {
+				role = "out"
+			}
+		}
 		noCols := false
 		switch c.Pos {
 		case "value", "upset", "upwhere", "cte", "fromsub", "limit":
